@@ -76,6 +76,10 @@ def insensitive(F, s):
         if ADAPTERS.search(fp) or ADAPTERS.search(nm):
             if "d" not in u:
                 return None
+            if _closure_has_effects(F, f, u):
+                # the closure runs once per element *in iteration order* and mutates captured state (creates names, pushes, counts):
+                # the order is observed even if the results are collected into an unordered container afterwards
+                return None
             cur = u["d"]["l"]
             continue
         if re.search(r"Itertools::(sorted|sorted_by|sorted_by_key|sorted_unstable|sorted_unstable_by|sorted_unstable_by_key|sorted_by_cached_key)$", fp):
@@ -101,6 +105,62 @@ def insensitive(F, s):
             return None
         return None
     return None
+
+
+def _closure_has_effects(F, f, call):
+    """the closure passed to an iterator adapter writes through a captured variable (mutable borrow of / through its environment)"""
+    for a in call.get("a", [])[1:]:
+        if "l" not in a:
+            continue
+        for d in mir.defs_of(f).get(a["l"], []):
+            if d[2] == "agg" and isinstance(d[4], dict) and d[4].get("r", {}).get("closure"):
+                cname = d[4]["r"]["closure"]
+                tail = cname.rsplit("::", 1)[-1]  # {closure#n}
+                cf = [F.fns[c] for c in F.children.get(f.id, []) if F.fns[c].name.rsplit("::", 1)[-1] == tail] or \
+                     [x for x in F.fns.values() if x.name == cname or x.d.get("path") == cname]
+                if not cf:
+                    return True
+                return _writes_through_env(F, cf[0])
+    return False
+
+
+def _writes_through_env(F, cf, depth=0):
+    if depth > 3:
+        return True
+    up_mut = False
+    for bi, si, st in cf.stmts():
+        r = st["r"]
+        if r["k"] == "ref" and r.get("m"):
+            for o in r.get("o", []):
+                if o.get("l") == 1:
+                    up_mut = True
+        # assignment through the environment
+        if st["d"].get("l") == 1 and st["d"].get("p"):
+            up_mut = True
+    if up_mut:
+        return True
+    # reborrows of captured `&mut T`: `_k = (*_1).i; _m = &mut *_k`
+    env = set()
+    for bi, si, st in cf.stmts():
+        r = st["r"]
+        if r["k"] in ("use", "ref") and any(o.get("l") == 1 or o.get("l") in env for o in r.get("o", []) if "l" in o) and "l" in st["d"] and not st["d"].get("p"):
+            env.add(st["d"]["l"])
+    for bi, si, st in cf.stmts():
+        r = st["r"]
+        if r["k"] == "ref" and r.get("m") and any(o.get("l") in env for o in r.get("o", []) if "l" in o):
+            return True
+    # a captured `&mut T` is used by moving/reborrowing the reference: look for calls that receive a value derived from an
+    # environment field whose type is a mutable reference
+    for bi, t in cf.calls():
+        for a in t.get("a", []):
+            if "l" in a:
+                for d in mir.defs_of(cf).get(a["l"], []):
+                    if d[2] in ("use", "ref") and d[3] and d[3][0].get("l") == 1 and d[4].get("r", {}).get("m", False):
+                        return True
+    for cid in F.children.get(cf.id, []):
+        if _writes_through_env(F, F.fns[cid], depth + 1):
+            return True
+    return False
 
 
 def _derives(f, o, local, depth=6):
